@@ -1,18 +1,39 @@
 import SimilarVerif.Lemmas.Close
+import SimilarVerif.Lemmas.CloseF32
+import SimilarVerif.Lemmas.Helpers
 /-!
 # C18 — get_close_matches equals exhaustive ranking by similarity ratio
 
 Model: `getCloseMatches` (Model/Close.lean), heap key `ratio.to_bits()` (after the `fix:` commit; the
 pinned key `(ratio * u32::MAX as f32) as u32` was not injective below 2^-9 — DESIGN.md §6 D9 — found by
-trying to state this theorem).  `f32` is Lean's opaque `Float32`: nothing can be proved about it, so
-the theorem is split into (1) the ORDER part, float-free: the result is the first `n` of the candidates
-that passed the three tests, sorted by (key descending, candidate ascending), the unique such
-arrangement; (2) the exact-arithmetic facts behind the two pre-filters (`matches ≤ min`, LCS ≤ multiset
-intersection, denominator with the number of distinct word tokens is smaller); (3) under an explicit
-monotone-rounding hypothesis `Rnd` (a definition, satisfiable: `exact_rnd`) the filters never discard a
-candidate that meets the cutoff.  That `to_bits` is order preserving on non-negative floats and that
-`ratioF` is monotone are IEEE-754 facts outside the kernel's reach: they are assumptions, exercised by
-the correspondence (native `Float32` in the driver = the same IEEE operations).
+trying to state this theorem).
+
+`f32` values are BIT PATTERNS computed by the soft-float model `SimilarVerif.F32` (Model/F32.lean:
+`n as f32`, `2.0 * x`, correctly rounded `x / y`, IEEE `<` / `>=` on arbitrary patterns — exact
+natural-number arithmetic, transparent to the kernel).  Rounding monotonicity, the order of the bit
+patterns and the behaviour of the comparisons for every cutoff (NaN, ±0, subnormal, ±inf, negative)
+are THEOREMS (Lemmas/F32.lean); `Rnd` is no longer a hypothesis of the main statements:
+
+* `filters_never_discard_f32` — the two pre-filters never discard a candidate whose ratio meets the cutoff;
+* `key_order_is_ratio_order`  — heap keys order candidates exactly as their `f32` ratios do;
+* `result_is_exhaustive_ranking` — whenever it returns, `get_close_matches` = first `n` of ALL candidates
+  with ratio `>= cutoff`, by ratio descending then lexicographically (`exhaustiveRanking`: a
+  specification that does not mention the pre-filters), and that ranking is well defined
+  (`exhaustive_ranking_well_defined`).
+
+The parametric statements (1)–(3) are kept: (1) the ORDER part: the result is the first `n` of the
+candidates that passed the three tests, sorted by (key descending, candidate ascending), the unique
+such arrangement; (2) the exact-arithmetic facts behind the two pre-filters (`matches ≤ min`, LCS ≤
+multiset intersection, denominator with the number of distinct word tokens is smaller); (3) for every
+monotone rounding `Rnd` (the soft floats: `soft_float_rounding_is_monotone`; exact fractions:
+`exact_rnd`) the filters never discard a candidate that meets the cutoff.
+
+What remains trusted: that the hardware `f32` operations of the compiled Rust agree with `F32` — i.e.
+that Model/F32.lean is IEEE-754 binary32 with round-to-nearest-even.  This is cross-checked bit for bit
+(a) by `test-f32/` (half a million reference values from `rustc`), (b) on every correspondence run
+(the driver prints the soft bits, the Rust side the hardware bits), and (c) by the driver itself, which
+recomputes every ratio and comparison with the native `Float32` and marks any disagreement
+`SOFTFLOAT-MISMATCH`.
 -/
 namespace SimilarVerif.C18
 open SimilarVerif CloseP
@@ -42,5 +63,73 @@ theorem filters_never_discard_qualifying : type_of% @filters_never_discard := @f
 
 /-- the rounding hypothesis is satisfiable (exact fractions) -/
 theorem rounding_hypothesis_satisfiable : Rnd exactR exactLe := exact_rnd
+
+/-! ## hypothesis-free statements over the model's soft floats -/
+
+/-- the model's `f32` ratio IS a monotone rounding (order of the bit patterns = IEEE order on ratios) -/
+theorem soft_float_rounding_is_monotone : Rnd (fun a b => F32.ratio a b) (fun x y : Nat => x ≤ y) := ratio_rnd
+
+/-- **the pre-filters never discard a qualifying candidate** — the model's actual filter values, every
+cutoff bit pattern, token lists of any length: if the final test `ratio >= cutoff` passes for the ratio
+`F32.ratio matches (|a|+|b|)` of a valid script of the two token lists, then neither
+`upper_seq_ratio < cutoff` nor `quick_ratio < cutoff` fires -/
+theorem filters_never_discard_f32 {a b : List Bytes} {ops : List Op}
+    (hw : Spec.Walk (tokEq a b) 0 0 ops a.length b.length) (cutoff : Nat)
+    (h : F32.ge (ratioF (Spec.nEq ops) (a.length + b.length)) cutoff = true) :
+    F32.lt (upperSeqRatio a.length b.length) cutoff = false ∧ F32.lt (quickRatio a b) cutoff = false :=
+  CloseP.filters_never_discard_f32 hw cutoff h
+
+/-- the ratio of a candidate is `F32.ratio matches (|a|+|b|)` for the (valid) Myers script of the tokens -/
+theorem candidate_ratio_is_myers_ratio : type_of% @diffRatio_eq := @diffRatio_eq
+
+/-- a candidate passes the three tests of the implementation iff its ratio is `>= cutoff` -/
+theorem prefilters_are_invisible : type_of% @passes_eq_qualifies := @passes_eq_qualifies
+
+/-- **"ordered by decreasing ratio" is literally the `f32` order**: for two candidates, `key₁ < key₂`
+(heap keys, `to_bits`) iff their ratios compare `<` in IEEE arithmetic; equal keys iff equal ratios -/
+theorem key_order_is_ratio_order (tok : Bytes → List Bytes) (word p₁ p₂ : Bytes) :
+    (keyOf tok word p₁ < keyOf tok word p₂ ↔ F32.lt (ratioOf tok word p₁) (ratioOf tok word p₂) = true) ∧
+    (keyOf tok word p₁ = keyOf tok word p₂ ↔ ratioOf tok word p₁ = ratioOf tok word p₂) :=
+  CloseP.key_order_is_ratio_order tok word p₁ p₂
+
+/-- **C18**: whenever `get_close_matches` returns (no diff aborted), its result is
+`exhaustiveRanking`: the first `n` of ALL candidates whose soft-float ratio is `>= cutoff`, sorted by
+ratio descending (IEEE order) then lexicographically — a specification without pre-filters -/
+theorem result_is_exhaustive_ranking {tok : Bytes → List Bytes} {word : Bytes} {cutoff : Nat}
+    {cands : List Bytes} {scored : List (UInt32 × Bytes)}
+    (h : closeScored tok word cutoff cands = .ok scored) (n : Nat) :
+    getCloseMatches tok word cands n cutoff = .ok (exhaustiveRanking tok word cands n cutoff) :=
+  getCloseMatches_eq_exhaustive h n
+
+/-- the specification unfolded -/
+theorem exhaustive_ranking_def (tok : Bytes → List Bytes) (word : Bytes) (cands : List Bytes) (n cutoff : Nat) :
+    exhaustiveRanking tok word cands n cutoff =
+      (sortBy (lexDesc F32.lt bytesLt (ratioOf tok word) id) (cands.filter (qualifies tok word cutoff))).take n := rfl
+
+/-- the ranking is a strict total order on candidates and `exhaustiveRanking` is the cut at `n` of THE
+sorted arrangement of the qualifying candidates -/
+theorem exhaustive_ranking_well_defined : type_of% @exhaustiveRanking_spec := @exhaustiveRanking_spec
+
+/-- scoring succeeds as soon as no candidate's diff aborts -/
+theorem scoring_succeeds : type_of% @closeScored_ok := @closeScored_ok
+
+/-- every candidate's Myers diff returns (`HelpersP.textDiffOps_total`: the capture pipeline is total on
+token arrays), so scoring never aborts … -/
+theorem diff_ratio_total (a b : List Bytes) : ∃ r, diffRatio a b = .ok r := by
+  obtain ⟨ops, w', h, -⟩ := HelpersP.textDiffOps_total .myers false a.toArray b.toArray {}
+  unfold diffRatio
+  rw [h]
+  exact ⟨_, rfl⟩
+
+/-- … and **C18 unconditionally**: for every tokenizer, word, candidate list, `n` and cutoff bit pattern,
+`get_close_matches` returns exactly the first `n` entries of the exhaustive ranking (all candidates whose
+f32 ratio is `>= cutoff`, by ratio descending, then lexicographically) — no hypothesis left. -/
+theorem get_close_matches_is_exhaustive_ranking (tok : Bytes → List Bytes) (word : Bytes) (cands : List Bytes)
+    (n cutoff : Nat) :
+    getCloseMatches tok word cands n cutoff = .ok (exhaustiveRanking tok word cands n cutoff) := by
+  obtain ⟨scored, h⟩ := closeScored_ok tok word cutoff cands (fun p _ => diff_ratio_total _ _)
+  exact getCloseMatches_eq_exhaustive h n
+
+#print axioms get_close_matches_is_exhaustive_ranking
 
 end SimilarVerif.C18
